@@ -4,20 +4,34 @@ package harness
 //
 // Every string is shown to the NNS contract compiled from the working tree
 // through test invocations (nothing is persisted, so every string meets the
-// same state): isAvailable / register / registerTLD for names, addRecord on a
-// domain without records and setRecord on a domain with one record of every
-// type for record data.  The verdict of the syntactic check is read off the
-// outcome: HALT (or a fault that can only be raised after the check) = 'T',
-// the check's own panic ("invalid record data", "invalid domain ...") = 'F',
-// any other fault raised inside the check (a native refusing its input,
-// "not a byte", "unsupported record type") = 'X'.
+// same prepared state).
+//
+// Core observation, two-valued and independent of fault texts: HALT =
+// accepted, FAULT = rejected, on entry points and inputs where nothing but
+// the syntactic check can fault:
+//   - record data (A, AAAA, TXT, CNAME, other types) through addRecord on the
+//     domain "add.com" (owned by the signer, no records) and through setRecord
+//     of id 0 on "set.com" (one record of every type); CNAME data is exactly
+//     the name grammar, so names are covered through it;
+//   - isAvailable on names without a dot or under a registered TLD;
+//   - register on names whose parent (everything after the first dot) is a
+//     registered TLD or a domain of the signer (a chain of three 63-byte
+//     labels is registered to reach the 255-byte bound);
+//   - registerTLD (committee) on names without a dot that are not registered.
+// Refinement, used only while every fault text seen is one of the known
+// ones (Extra["messages_recognised"]): FAULT splits into the check's own
+// panic ('F') and a fault raised inside the check ('X': a native refusing its
+// input, "not a byte", "unsupported record type"), and the name entry points
+// are also compared outside the prepared subsets ("TLD not found" & co. come
+// after the check).  An unknown text is not a violation: the run falls back
+// to the two-valued comparison.
 //
 // cases_C18*.v let Coq compare (1) the implementation with the model
 // (definitions M*), and (2) the implementation with the boolean version of
 // the grammar, which Proofs/NNSSyntaxBool.v proves equivalent to the
-// declarative one (definitions MG*).  Finding F12 (seven groups followed by
-// "::" rejected) is repaired by 7bd3a2c; the Go monitor reports its signature
-// as a violation should it come back.
+// declarative one (definitions MG*).  The Go monitors compare HALT/FAULT
+// between entry points on the same string (addRecord vs setRecord; name entry
+// points vs CNAME data) and report the signature of the repaired finding F12.
 
 import (
 	"bytes"
@@ -40,26 +54,39 @@ import (
 )
 
 // c18Env is a chain with the NNS contract of the working tree, TLD "com",
-// domain "add.com" without records and domain "set.com" with one record of
-// every data type at id 0, both owned by the validator.
+// domain "add.com" without records, domain "set.com" with one record of every
+// data type at id 0, and the chain a63.com, a63.a63.com, a63.a63.a63.com plus
+// a 255-byte domain below it, all owned by the validator.
 type c18Env struct {
 	*Env
-	nns    util.Uint160
-	owner  neotest.Signer
-	faults map[string]int
+	nns     util.Uint160
+	owner   neotest.Signer
+	tlds    map[string]bool // registered TLDs
+	domains map[string]bool // registered domains of the owner
+	chain3  string          // 195-byte domain
+	unknown map[string]int  // fault texts outside the known classes
+	faults  map[string]int  // recognised faults raised inside the check
 }
 
 func newC18Env(t testing.TB) *c18Env {
 	v := NewEnv(t)
 	ctr := v.Compile("nns")
 	v.E.DeployContract(t, ctr, nil)
-	n := &c18Env{Env: v, nns: ctr.Hash, owner: v.E.Validator, faults: map[string]int{}}
+	n := &c18Env{Env: v, nns: ctr.Hash, owner: v.E.Validator, tlds: map[string]bool{}, domains: map[string]bool{},
+		unknown: map[string]int{}, faults: map[string]int{}}
 	year := int64(365 * 24 * 3600)
 	r := v.Invoke([]neotest.Signer{v.E.Committee}, n.nns, "registerTLD", "com", "a@b.c", int64(101), int64(102), 100*year, int64(104))
 	require.True(t, r.Halt, r.Fault)
-	for _, d := range []string{"add.com", "set.com"} {
+	n.tlds["com"] = true
+	lab := strings.Repeat("a", 63)
+	d1 := lab + ".com"
+	d2 := lab + "." + d1
+	n.chain3 = lab + "." + d2
+	d4 := strings.Repeat("b", 59) + "." + n.chain3 // 255 bytes
+	for _, d := range []string{"add.com", "set.com", d1, d2, n.chain3, d4} {
 		r = v.Invoke([]neotest.Signer{n.owner}, n.nns, "register", d, n.owner.ScriptHash(), "a@b.c", int64(101), int64(102), 100*year, int64(104))
 		require.True(t, r.Halt, r.Fault)
+		n.domains[d] = true
 	}
 	for _, rec := range []struct {
 		typ  int64
@@ -89,11 +116,26 @@ func (n *c18Env) try(signer util.Uint160, method string, args ...any) string {
 	return ""
 }
 
+// Entry points, as the type code of the Coq side.
+const (
+	c18IsAvailable = int64(0)
+	c18Register    = int64(-1)
+	c18RegisterTLD = int64(-2)
+)
+
+// c18Obs is what one invocation showed. halt is the core observation.  class
+// refines it with the help of the fault text: 'T' HALT or a fault that can
+// only come after the check, 'F' the check's own panic, 'X' a fault inside the
+// check, '?' a text outside the known classes.  sound says that in the
+// prepared state nothing but the syntactic check can fault for this input.
+type c18Obs struct {
+	halt  bool
+	class byte
+	sound bool
+}
+
 var c18Quoted = regexp.MustCompile(`unhandled exception: "([^"]*)"`)
 
-// classify maps an outcome to 'T', 'F' or 'X'. checkMsgs are the panics of
-// the syntactic check itself, laterMsgs the panics that can only be reached
-// after it succeeded.
 func (n *c18Env) classify(fault string, checkMsgs, laterMsgs, insideMsgs []string) byte {
 	if fault == "" {
 		return 'T'
@@ -120,7 +162,7 @@ func (n *c18Env) classify(fault string, checkMsgs, laterMsgs, insideMsgs []strin
 			return 'X'
 		}
 	}
-	n.faults["UNEXPECTED: "+msg]++
+	n.unknown[msg]++
 	return '?'
 }
 
@@ -134,23 +176,40 @@ var (
 	c18RegTLDLater = []string{"not a TLD", "TLD already exists"}
 )
 
-func (n *c18Env) isAvailable(s []byte) byte {
-	return n.classify(n.try(n.owner.ScriptHash(), "isAvailable", s), c18NameCheck, c18AvailLater, c18NameInside)
+// call shows s to the entry point typ (a name entry point, or addRecord for a
+// record type).
+func (n *c18Env) call(typ int64, s []byte) c18Obs {
+	var f string
+	var o c18Obs
+	dot := bytes.IndexByte(s, '.')
+	switch typ {
+	case c18IsAvailable:
+		f = n.try(n.owner.ScriptHash(), "isAvailable", s)
+		o.class = n.classify(f, c18NameCheck, c18AvailLater, c18NameInside)
+		o.sound = dot < 0 || n.tlds[string(s[bytes.LastIndexByte(s, '.')+1:])]
+	case c18Register:
+		f = n.try(n.owner.ScriptHash(), "register", s, n.owner.ScriptHash(), "a@b.c", int64(1), int64(2), int64(3000000), int64(4))
+		o.class = n.classify(f, c18NameCheck, c18RegLater, c18NameInside)
+		o.sound = dot >= 0 && (n.tlds[string(s[dot+1:])] || n.domains[string(s[dot+1:])])
+	case c18RegisterTLD:
+		f = n.try(n.E.CommitteeHash, "registerTLD", s, "a@b.c", int64(1), int64(2), int64(3000000), int64(4))
+		o.class = n.classify(f, c18NameCheck, c18RegTLDLater, c18NameInside)
+		o.sound = dot < 0 && !n.tlds[string(s)]
+	default:
+		f = n.try(n.owner.ScriptHash(), "addRecord", "add.com", typ, s)
+		o.class = n.classify(f, c18RecCheck, nil, c18RecInside)
+		o.sound = true
+	}
+	o.halt = f == ""
+	return o
 }
-func (n *c18Env) register(s []byte) byte {
-	return n.classify(n.try(n.owner.ScriptHash(), "register", s, n.owner.ScriptHash(), "a@b.c", int64(1), int64(2), int64(3000000), int64(4)),
-		c18NameCheck, c18RegLater, c18NameInside)
-}
-func (n *c18Env) registerTLD(s []byte) byte {
-	return n.classify(n.try(n.E.CommitteeHash, "registerTLD", s, "a@b.c", int64(1), int64(2), int64(3000000), int64(4)),
-		c18NameCheck, c18RegTLDLater, c18NameInside)
-}
-func (n *c18Env) addRecord(typ int64, s []byte) byte {
-	return n.classify(n.try(n.owner.ScriptHash(), "addRecord", "add.com", typ, s), c18RecCheck, nil, c18RecInside)
-}
-func (n *c18Env) setRecord(typ int64, s []byte) byte {
-	// a type without a record at id 0 reaches "invalid record id" after the check
-	return n.classify(n.try(n.owner.ScriptHash(), "setRecord", "set.com", typ, int64(0), s), c18RecCheck, []string{"invalid record id", "record already exists"}, c18RecInside)
+
+// setRecord replaces record 0 of set.com (a type without a record there
+// faults after the check, as the model says it faults in the check).
+func (n *c18Env) setRecord(typ int64, s []byte) c18Obs {
+	f := n.try(n.owner.ScriptHash(), "setRecord", "set.com", typ, int64(0), s)
+	return c18Obs{halt: f == "", sound: true,
+		class: n.classify(f, c18RecCheck, []string{"invalid record id", "record already exists"}, c18RecInside)}
 }
 
 // ---------------------------------------------------------------------------
@@ -202,6 +261,8 @@ func c18ObsLit(o byte) string {
 		return "VBool true"
 	case 'F':
 		return "VBool false"
+	case 'R':
+		return "VNull"
 	default:
 		return "VFault"
 	}
@@ -212,10 +273,12 @@ func c18ObsLit(o byte) string {
 
 type c18Family struct {
 	name   string
-	typ    int64 // 0 = isAvailable
+	typ    int64 // entry point or record type
 	sep    int   // -1 = none
 	tokens []string
 	n      int
+	suffix string
+	refine bool // needs fault texts to tell acceptance: written only while they are recognised
 }
 
 func (f c18Family) enumerate(visit func(s []byte)) {
@@ -231,7 +294,7 @@ func (f c18Family) enumerate(visit func(s []byte)) {
 			for i, x := range idx {
 				parts[i] = f.tokens[x]
 			}
-			visit([]byte(strings.Join(parts[:k], sepS)))
+			visit([]byte(strings.Join(parts[:k], sepS) + f.suffix))
 			return
 		}
 		for t := range f.tokens {
@@ -254,7 +317,7 @@ func (f c18Family) coq(acc, flt string) string {
 	for i, t := range f.tokens {
 		toks[i] = BytesLit([]byte(t))
 	}
-	return fmt.Sprintf("(%d%%Z, %s, %s, %d%%nat, %s, %s)", f.typ, sep, ListLit(toks), f.n, acc, flt)
+	return fmt.Sprintf("(%s%%Z, %s, %s, %d%%nat, %s, %s, %s)", c18ParenNeg(strconv.FormatInt(f.typ, 10)), sep, ListLit(toks), f.n, BytesLit([]byte(f.suffix)), acc, flt)
 }
 
 // ---------------------------------------------------------------------------
@@ -542,9 +605,30 @@ func TestC18(t *testing.T) {
 	out := OutDir()
 	thorough := Tier() == "thorough"
 
+	entryName := func(typ int64) string {
+		switch typ {
+		case c18IsAvailable:
+			return "isAvailable"
+		case c18Register:
+			return "register"
+		case c18RegisterTLD:
+			return "registerTLD"
+		}
+		return "addRecord"
+	}
+	kindName := func(typ int64) string {
+		if typ <= 0 {
+			return "name(" + entryName(typ) + ")"
+		}
+		if k := map[int64]string{1: "A", 5: "CNAME", 16: "TXT", 28: "AAAA"}[typ]; k != "" {
+			return k
+		}
+		return "other-type"
+	}
 	distinct := map[string]bool{}
 	nontrivial := map[string]bool{}
-	note := func(typ int64, s []byte, o byte) {
+	classes := map[string]int{}
+	note := func(typ int64, s []byte, o c18Obs) {
 		k := strconv.FormatInt(typ, 10) + "/" + string(s)
 		if distinct[k] {
 			return
@@ -552,64 +636,68 @@ func TestC18(t *testing.T) {
 		distinct[k] = true
 		l := len(s)
 		gate := true
-		switch typ {
-		case 0, 5:
+		switch {
+		case typ <= 0 || typ == 5:
 			gate = l >= 3 && l <= 255
-		case 1:
+		case typ == 1:
 			gate = l >= 7 && l <= 15
-		case 28:
+		case typ == 28:
 			gate = l >= 2 && l <= 39
 		}
 		if gate {
 			nontrivial[k] = true
 		}
-		kind := map[int64]string{0: "name", 1: "A", 5: "CNAME", 16: "TXT", 28: "AAAA"}[typ]
-		if kind == "" {
-			kind = "other-type"
+		if o.halt {
+			st.OutcomeHistogram[kindName(typ)+"/HALT"]++
+		} else {
+			st.OutcomeHistogram[kindName(typ)+"/FAULT"]++
 		}
-		st.OutcomeHistogram[kind+"/"+map[byte]string{'T': "accepted", 'F': "rejected", 'X': "fault-in-check", '?': "unexpected"}[o]]++
-		if typ == 28 && o != 'T' && c18IsF12(string(s)) {
+		classes[kindName(typ)+"/"+map[byte]string{'T': "accepted", 'F': "rejected by the check", 'X': "fault inside the check", '?': "fault with an unknown text"}[o.class]]++
+		if typ == 28 && !o.halt && c18IsF12(string(s)) {
 			st.AddViolation(fmt.Sprintf("the global unicast address %q (seven groups and \"::\" for one zero group, RFC 4291 2.2 form 2) is refused as AAAA data", s),
 				map[string]any{"type": typ, "data": string(s), "data_hex": Hex(s)})
 		}
 	}
-	evalOne := func(typ int64, s []byte, all bool) byte {
-		var o byte
-		if typ == 0 {
-			o = n.isAvailable(s)
-			st.OpHistogram["isAvailable"]++
+	// HALT/FAULT of addRecord(CNAME, s): the reference the name entry points
+	// are compared with (same scanner, nothing else can fault there).
+	cnameHalt := map[string]bool{}
+	cname := func(s []byte) bool {
+		if h, ok := cnameHalt[string(s)]; ok {
+			return h
+		}
+		o := n.call(5, s)
+		st.OpHistogram["addRecord"]++
+		st.Evaluations++
+		cnameHalt[string(s)] = o.halt
+		return o.halt
+	}
+	hf := map[bool]string{true: "HALTs", false: "FAULTs"}
+	evalOne := func(typ int64, s []byte, withSet bool) c18Obs {
+		o := n.call(typ, s)
+		st.OpHistogram[entryName(typ)]++
+		st.Evaluations++
+		if typ == 5 {
+			cnameHalt[string(s)] = o.halt
+		}
+		if typ > 0 && withSet {
+			o2 := n.setRecord(typ, s)
+			st.OpHistogram["setRecord"]++
 			st.Evaluations++
-			if all {
-				for name, f := range map[string]func([]byte) byte{"register": n.register, "registerTLD": n.registerTLD} {
-					o2 := f(s)
-					st.OpHistogram[name]++
-					st.Evaluations++
-					if o2 != o {
-						st.AddViolation(fmt.Sprintf("isAvailable says %c and %s says %c for the name %q", o, name, o2, s), map[string]any{"name_hex": Hex(s)})
-					}
-				}
-			}
-		} else {
-			o = n.addRecord(typ, s)
-			st.OpHistogram["addRecord"]++
-			st.Evaluations++
-			if all {
-				o2 := n.setRecord(typ, s)
-				st.OpHistogram["setRecord"]++
-				st.Evaluations++
-				if o2 != o {
-					st.AddViolation(fmt.Sprintf("addRecord says %c and setRecord says %c for type %d data %q", o, o2, typ, s), map[string]any{"type": typ, "data_hex": Hex(s)})
-				}
+			if o2.halt != o.halt {
+				st.AddViolation(fmt.Sprintf("addRecord %s and setRecord %s for type %d data %q", hf[o.halt], hf[o2.halt], typ, s), map[string]any{"type": typ, "data_hex": Hex(s)})
 			}
 		}
-		if o == '?' {
-			st.AddViolation(fmt.Sprintf("unexpected outcome for type %d string %q", typ, s), map[string]any{"type": typ, "data_hex": Hex(s)})
+		if typ <= 0 && o.sound {
+			if c := cname(s); c != o.halt {
+				st.AddViolation(fmt.Sprintf("%s %s for the name %q (%d bytes; its TLD/parent is registered, so only the name check can fault) while addRecord(CNAME) with the same string as data %s",
+					entryName(typ), hf[o.halt], s, len(s), hf[c]), map[string]any{"entry": entryName(typ), "name_hex": Hex(s)})
+			}
 		}
 		note(typ, s, o)
 		return o
 	}
 
-	// ---- 1. corpus + mutations + random strings, listed in cases_C18.v ----
+	// ---- 1. corpus + mutations + random strings ----
 	var listed []c18Case
 	for _, s := range []string{"+1.2.3.4", "1.+2.3.4", "+1.+2.+3.+4"} { // F10 (repaired by 0620db8)
 		listed = append(listed, c18Case{1, s})
@@ -626,17 +714,22 @@ func TestC18(t *testing.T) {
 	for _, s := range c18IPv6Mutations() {
 		listed = append(listed, c18Case{28, s})
 	}
-	for _, s := range c18NameMutations() {
-		listed = append(listed, c18Case{0, s}, c18Case{5, s})
+	names := c18NameMutations()
+	// total length around 255 below the registered 195-byte domain: the only
+	// place where register can meet the upper bound with all parents present
+	for k := 50; k <= 64; k++ {
+		names = append(names, strings.Repeat("c", k)+"."+n.chain3)
+	}
+	names = append(names, "c."+strings.Repeat("b", 59)+"."+n.chain3, "-."+n.chain3, "c-."+n.chain3, "C."+n.chain3, "."+n.chain3, "c..com", "c.add.com", "c.d.add.com", "add.com", "com")
+	for _, s := range names {
+		listed = append(listed, c18Case{5, s}, c18Case{c18IsAvailable, s}, c18Case{c18Register, s}, c18Case{c18RegisterTLD, s})
 	}
 	for _, s := range c18TXTMutations() {
 		listed = append(listed, c18Case{16, s})
 	}
-	for _, typ := range []int64{0x00, 2, 6, 15, 17, 27, 29, 255, 256, -1, 1 << 40} {
+	for _, typ := range []int64{2, 6, 15, 17, 27, 29, 255, 256, 1 << 40} {
 		for _, s := range []string{"x", "1.2.3.4", "a.com", "2003::1", ""} {
-			if typ != 0 {
-				listed = append(listed, c18Case{typ, s})
-			}
+			listed = append(listed, c18Case{typ, s})
 		}
 	}
 	nMut := len(listed)
@@ -644,9 +737,19 @@ func TestC18(t *testing.T) {
 	if thorough {
 		nRand = 25000
 	}
-	listed = append(listed, c18Random(Rng(18), nRand)...)
+	for _, c := range c18Random(Rng(18), nRand) {
+		listed = append(listed, c)
+		if c.typ == 0 && strings.Count(c.s, ".") == 0 {
+			listed = append(listed, c18Case{c18RegisterTLD, c.s}, c18Case{c18Register, c.s + ".com"}, c18Case{c18IsAvailable, c.s + ".com"})
+		}
+	}
 
-	groups := map[string][][]byte{} // "typ/outcome" -> strings
+	type c18Seen struct {
+		typ int64
+		s   []byte
+		o   c18Obs
+	}
+	var observed []c18Seen
 	seen := map[string]bool{}
 	for i, c := range listed {
 		k := strconv.FormatInt(c.typ, 10) + "/" + c.s
@@ -654,12 +757,82 @@ func TestC18(t *testing.T) {
 			continue
 		}
 		seen[k] = true
-		typ := c.typ
-		o := evalOne(typ, []byte(c.s), i < nMut)
-		gk := strconv.FormatInt(typ, 10) + "/" + string(o)
-		groups[gk] = append(groups[gk], []byte(c.s))
+		observed = append(observed, c18Seen{c.typ, []byte(c.s), evalOne(c.typ, []byte(c.s), i < nMut)})
 	}
 	st.Histories = len(seen)
+
+	// ---- 2. exhaustive families, enumerated on both sides ----
+	nameAlpha := []string{"a", "z", "0", "9", "-", ".", "A", "_", "+", " "}
+	labelAlpha := []string{"a", "z", "0", "9", "-", "A", "_", "+", " "} // no dot
+	nameLen := 4
+	v4tok := []string{"", "0", "1", "255", "256", "01"}
+	v6tok := []string{"", "2003", "1"}
+	if thorough {
+		nameLen = 5
+		v4tok = []string{"", "0", "1", "255", "256", "01", "+1", "9"}
+	}
+	fams := []c18Family{
+		{name: "names_cname", typ: 5, sep: -1, tokens: nameAlpha, n: nameLen},
+		{name: "isAvailable_single_label", typ: c18IsAvailable, sep: -1, tokens: labelAlpha, n: nameLen},
+		{name: "isAvailable_under_com", typ: c18IsAvailable, sep: -1, tokens: nameAlpha, n: nameLen - 1, suffix: ".com"},
+		{name: "register_under_com", typ: c18Register, sep: -1, tokens: labelAlpha, n: nameLen - 1, suffix: ".com"},
+		{name: "registerTLD_single_label", typ: c18RegisterTLD, sep: -1, tokens: labelAlpha, n: nameLen},
+		{name: "ipv4_tokens", typ: 1, sep: '.', tokens: v4tok, n: 5},
+		{name: "ipv6_tokens", typ: 28, sep: ':', tokens: v6tok, n: 9},
+		{name: "isAvailable_any", typ: c18IsAvailable, sep: -1, tokens: nameAlpha, n: nameLen, refine: true},
+	}
+	if thorough {
+		fams = append(fams, c18Family{name: "ipv6_tokens4", typ: 28, sep: ':', tokens: []string{"", "2003", "1", "0"}, n: 8})
+	}
+	type c18FamObs struct {
+		cnt                      int
+		accHalt, accClass, fltIn [][]byte
+	}
+	famObs := make([]c18FamObs, len(fams))
+	for fi, f := range fams {
+		fo := &famObs[fi]
+		f.enumerate(func(s []byte) {
+			fo.cnt++
+			o := evalOne(f.typ, s, false)
+			if !f.refine {
+				require.True(t, o.sound, "family %s: %q is outside the prepared state", f.name, s)
+			}
+			if o.halt {
+				fo.accHalt = append(fo.accHalt, bytes.Clone(s))
+			}
+			switch o.class {
+			case 'T':
+				fo.accClass = append(fo.accClass, bytes.Clone(s))
+			case 'X':
+				fo.fltIn = append(fo.fltIn, bytes.Clone(s))
+			}
+		})
+	}
+
+	// ---- the fault texts decide how fine the comparison is ----
+	recognised := len(n.unknown) == 0
+	code := func(o c18Obs) byte { // 0 = not comparable
+		switch {
+		case recognised:
+			return o.class
+		case o.halt:
+			return 'T'
+		case o.sound:
+			return 'R'
+		}
+		return 0
+	}
+	groups := map[string][][]byte{} // "typ/outcome" -> strings
+	dropped := 0
+	for _, c := range observed {
+		o := code(c.o)
+		if o == 0 {
+			dropped++
+			continue
+		}
+		gk := strconv.FormatInt(c.typ, 10) + "/" + string(o)
+		groups[gk] = append(groups[gk], c.s)
+	}
 	gkeys := make([]string, 0, len(groups))
 	for k := range groups {
 		gkeys = append(gkeys, k)
@@ -701,48 +874,31 @@ func TestC18(t *testing.T) {
 	if len(gl) > 0 || fileNo == 0 {
 		flush(w, gl)
 	}
-
-	// ---- 2. exhaustive families, enumerated on both sides ----
-	nameAlpha := []string{"a", "z", "0", "9", "-", ".", "A", "_", "+", " "}
-	nameLen := 4
-	v4tok := []string{"", "0", "1", "255", "256", "01"}
-	v6tok := []string{"", "2003", "1"}
-	v6n := 9
-	if thorough {
-		nameLen = 5
-		v4tok = []string{"", "0", "1", "255", "256", "01", "+1", "9"}
-	}
-	fams := []c18Family{
-		{"names_isAvailable", 0, -1, nameAlpha, nameLen},
-		{"names_cname", 5, -1, nameAlpha, nameLen},
-		{"ipv4_tokens", 1, '.', v4tok, 5},
-		{"ipv6_tokens", 28, ':', v6tok, v6n},
-	}
-	if thorough {
-		fams = append(fams, c18Family{"ipv6_tokens4", 28, ':', []string{"", "2003", "1", "0"}, 8})
-	}
 	famSizes := map[string]int{}
 	for fi, f := range fams {
-		var acc, flt [][]byte
-		cnt := 0
-		f.enumerate(func(s []byte) {
-			cnt++
-			switch evalOne(f.typ, s, false) {
-			case 'T':
-				acc = append(acc, bytes.Clone(s))
-			case 'X':
-				flt = append(flt, bytes.Clone(s))
-			}
-		})
-		famSizes[f.name] = cnt
+		fo := famObs[fi]
+		famSizes[f.name] = fo.cnt
+		if f.refine && !recognised {
+			continue
+		}
+		acc := fo.accHalt
+		if f.refine {
+			acc = fo.accClass
+		}
 		w := &c18Rows{}
-		accR, fltR := w.rows(acc), w.rows(flt)
+		accR := w.rows(acc)
+		fltR := "[]"
+		if recognised {
+			fltR = w.rows(fo.fltIn)
+		}
 		body := c18Header + w.sb.String() +
 			"Definition fam : family := " + f.coq(accR, fltR) + ".\n" +
-			fmt.Sprintf("Definition size_ok := Eval vm_compute in (family_size fam =? %d)%%Z.\n", cnt) +
-			"Definition M := Eval vm_compute in (if size_ok then [] else [(0%Z, [], false)]) ++ fst (family_model fam).\nPrint M.\n" +
-			"Definition MX := Eval vm_compute in snd (family_model fam).\nPrint MX.\n" +
-			"Definition MG := Eval vm_compute in family_grammar fam.\nPrint MG.\n"
+			fmt.Sprintf("Definition size_ok := Eval vm_compute in (family_size fam =? %d)%%Z.\n", fo.cnt) +
+			"Definition M := Eval vm_compute in (if size_ok then [] else [(0%Z, [], false)]) ++ family_model fam.\nPrint M.\n"
+		if recognised {
+			body += "Definition MX := Eval vm_compute in family_model_faults fam.\nPrint MX.\n"
+		}
+		body += "Definition MG := Eval vm_compute in family_grammar fam.\nPrint MG.\n"
 		require.NoError(t, os.WriteFile(filepath.Join(out, fmt.Sprintf("cases_C18_f%d_%s.v", fi, f.name)), []byte(body), 0o644))
 	}
 
@@ -804,19 +960,23 @@ func TestC18(t *testing.T) {
 	}
 
 	st.DistinctNontrivial = len(nontrivial)
-	st.Rule = "one case = one (entry point family, string) pair shown to the compiled NNS contract: names through isAvailable (mutation corpus also through register and registerTLD), " +
-		"record data through addRecord on a domain without records (mutation corpus also through setRecord); distinct_nontrivial counts the distinct pairs that pass the scanner's first length gate " +
-		"(names/CNAME 3..255 bytes, A 7..15, AAAA 2..39, TXT and other types always), i.e. reach the character-level logic; " +
-		fmt.Sprintf("families enumerated exhaustively on both sides: %v; listed: %d corpus/mutation strings + %d seeded random strings (seed-derived PRNG)", famSizes, nMut, 3*nRand)
+	st.Rule = "one case = one (entry point, string) pair shown to the compiled NNS contract in a prepared state; the compared observation is HALT/FAULT where nothing but the syntactic check can fault: " +
+		"record data through addRecord on a domain without records (mutation corpus also through setRecord of id 0 on a domain with one record per type), names as CNAME data, through isAvailable (no dot, or under a registered TLD), " +
+		"register (parent = registered TLD or own domain, incl. a 195-byte chain to reach the 255-byte bound) and registerTLD (no dot, not registered); while all fault texts are recognised, FAULT is refined into reject / fault-inside-the-check and the name entry points are compared on all strings; " +
+		"distinct_nontrivial counts the distinct pairs that pass the scanner's first length gate (names 3..255 bytes, A 7..15, AAAA 2..39, TXT and other types always), i.e. reach the character-level logic; " +
+		fmt.Sprintf("families enumerated exhaustively on both sides: %v; listed: %d corpus/mutation pairs + seeded random strings (%d draws, seed-derived PRNG)", famSizes, nMut, 3*nRand)
 	st.Extra["distinct_pairs"] = len(distinct)
 	st.Extra["families"] = famSizes
+	st.Extra["messages_recognised"] = recognised
+	st.Extra["unrecognised_messages"] = n.unknown
+	st.Extra["listed_pairs_not_comparable_without_messages"] = dropped
+	st.Extra["refined_outcomes"] = classes
 	st.Extra["fault_messages_inside_check"] = n.faults
 	st.Extra["inert_rejections_checked_on_persisted_transactions"] = inert
 	st.Samples = []any{
 		map[string]any{"call": "addRecord(add.com, AAAA, \"2003:1:2:3:4:5:6::\")", "observed": "HALT, record stored (F12 repaired)"},
-		map[string]any{"call": "addRecord(add.com, AAAA, \"::1:2:3:4:5:6:7\")", "observed": "FAULT invalid record data (nine fragments, not global unicast)"},
-		map[string]any{"call": "addRecord(add.com, A, \"+1.2.3.4\")", "observed": "FAULT invalid record data (F10 repaired)"},
-		map[string]any{"call": "isAvailable(\"a-.z\")", "observed": "FAULT invalid domain fragment"},
+		map[string]any{"call": "addRecord(add.com, A, \"+1.2.3.4\")", "observed": "FAULT (F10 repaired)"},
+		map[string]any{"call": "register(\"c\"*60 + \".\" + a63.a63.a63.com) (256 bytes, parent registered)", "observed": "FAULT"},
 	}
 	st.Write()
 }
